@@ -459,3 +459,89 @@ Proof.
   rewrite (ls_outs_from t ops _ g Habs). f_equal. rewrite Hl, (Hg Hl).
   unfold outs. cbn. rewrite Z.eqb_refl. reflexivity.
 Qed.
+
+(* ---- indifference to the element type (see C05_Proofs §7) ---- *)
+
+Definition sop_map (f : Z -> Z) (o : sop) : sop :=
+  match o with
+  | Push x => Push (f x)
+  | SSearch x => SSearch (f x)
+  | o => o
+  end.
+
+Definition sout_map (f : Z -> Z) (r : sout) : sout :=
+  match r with
+  | SVal v => SVal (f v)
+  | r => r
+  end.
+
+Definition lsd_map (f : Z -> Z) (d : lsd) : lsd := (map f (fst d), option_map f (snd d)).
+
+Lemma lifo_step_equivariant (f : Z -> Z) l o :
+  (forall a b, f a = f b -> a = b) -> f 0 = 0 ->
+  lifo_step (map f l) (sop_map f o) =
+  (map f (fst (lifo_step l o)), sout_map f (snd (lifo_step l o))).
+Proof.
+  intros Hinj H0. destruct o as [x| | |x|]; cbn [sop_map lifo_step fst snd sout_map].
+  - reflexivity.
+  - destruct l as [|y l]; cbn [map fst snd sout_map]; [now rewrite H0|reflexivity].
+  - destruct l as [|y l]; cbn [map hd]; [now rewrite H0|reflexivity].
+  - now rewrite existsb_eqb_map.
+  - now rewrite map_length.
+Qed.
+
+Lemma below_map f g : below_of (option_map f g) = map f (below_of g).
+Proof. destruct g; reflexivity. Qed.
+
+Lemma lsd_step_equivariant (f : Z -> Z) d o :
+  (forall a b, f a = f b -> a = b) -> f 0 = 0 ->
+  lsd_step (lsd_map f d) (sop_map f o) =
+  (lsd_map f (fst (lsd_step d o)), sout_map f (snd (lsd_step d o))).
+Proof.
+  intros Hinj H0. destruct d as [l g]. unfold lsd_map. cbn [fst snd].
+  destruct o as [x| | |x|]; cbn [sop_map lsd_step];
+    change (match option_map f g with Some g0 => [g0] | None => [] end) with (below_of (option_map f g));
+    change (match g with Some g0 => [g0] | None => [] end) with (below_of g);
+    rewrite ?below_map.
+  - reflexivity.
+  - destruct l as [|x l']; cbn [map fst snd sout_map option_map]; [now rewrite H0|].
+    rewrite <- map_app. destruct (l' ++ below_of g) as [|y u]; cbn [map fst snd sout_map option_map];
+      [now rewrite H0|reflexivity].
+  - rewrite <- map_app. cbn [fst snd sout_map]. destruct (l ++ below_of g); cbn [map hd]; [now rewrite H0|reflexivity].
+  - rewrite <- map_app. now rewrite existsb_eqb_map.
+  - now rewrite map_length.
+Qed.
+
+Section Equivariant.
+  Context {S : Type}.
+  Variable step : S -> sop -> S * sout.
+  Variable smap : (Z -> Z) -> S -> S.
+  Variable f : Z -> Z.
+  Hypothesis Hstep : forall s o,
+    step (smap f s) (sop_map f o) = (smap f (fst (step s o)), sout_map f (snd (step s o))).
+
+  Lemma run_equivariant ops : forall s,
+    outs step (smap f s) (map (sop_map f) ops) = map (sout_map f) (outs step s ops).
+  Proof.
+    induction ops as [|o ops IH]; intros s; [reflexivity|].
+    cbn [map]. rewrite !outs_cons, Hstep. cbn [fst snd map]. now rewrite IH.
+  Qed.
+End Equivariant.
+
+Lemma ss_equivariant (f : Z -> Z) ops :
+  (forall a b, f a = f b -> a = b) -> f 0 = 0 ->
+  outs ss_step ss_new (map (sop_map f) ops) = map (sout_map f) (outs ss_step ss_new ops).
+Proof.
+  intros Hinj H0. rewrite (proj1 (ss_refines _)), (proj1 (ss_refines ops)).
+  exact (run_equivariant lifo_step (fun f l => map f l) f
+           (fun s o => lifo_step_equivariant f s o Hinj H0) ops []).
+Qed.
+
+Lemma ls_equivariant (f : Z -> Z) t ops :
+  (forall a b, f a = f b -> a = b) -> f 0 = 0 ->
+  outs ls_step (ls_new (f t)) (map (sop_map f) ops) = map (sout_map f) (outs ls_step (ls_new t) ops).
+Proof.
+  intros Hinj H0. rewrite (proj1 (ls_partial (f t) _)), (proj1 (ls_partial t ops)).
+  exact (run_equivariant lsd_step lsd_map f
+           (fun s o => lsd_step_equivariant f s o Hinj H0) ops ([t], None)).
+Qed.
